@@ -140,19 +140,28 @@ def renameTree (c : Cfg) (ν : Naming) (t : Tree) : Naming := renameForest c ν 
 
 /-! ## the rename flag (`renamer.rename`)
 
-`newRenamer(!o.KeepVarNames, …)` sets it for the top level; `minifyFuncDecl`, `minifyMethodDecl` and
-`minifyArrowFunc` set it to `!decl.Body.Scope.HasWith && !m.o.KeepVarNames` for their body and restore it
-afterwards; every other scope inherits the current value. -/
+Before anything is printed, `Minify` walks the AST (`withVisitor`, fix f7bc618): every function scope — and the
+global scope — that encloses a function containing `with` is marked `HasWith` as well.  Then
+`newRenamer(!o.KeepVarNames && !ast.Scope.HasWith, …)` sets the flag for the top level (fix ce69f48);
+`minifyFuncDecl`, `minifyMethodDecl` and `minifyArrowFunc` set it to `!decl.Body.Scope.HasWith && !m.o.KeepVarNames`
+for their body and restore it afterwards; every other scope inherits the current value. -/
+
+/-- some function scope of the forest carries the parser's `HasWith` mark -/
+def anyWith : Forest → Bool
+  | .nil => false
+  | .node i ch sib => (i.isFunc && i.hasWith) || anyWith ch || anyWith sib
 
 def computeFlags (keep : Bool) (cur : Bool) : Forest → Forest
   | .nil => .nil
   | .node i ch sib =>
-    let r := if i.isFunc then !i.hasWith && !keep else cur
+    let r := if i.isFunc then !(i.hasWith || anyWith ch) && !keep else cur
     .node { i with rename := r } (computeFlags keep r ch) (computeFlags keep cur sib)
 
-/-- the global scope is never handed to `renameScope`; its children start with `!KeepVarNames` -/
+/-- the global scope is never handed to `renameScope`; its children start with
+    `!KeepVarNames && !(HasWith of the global scope after the pre-pass)` -/
 def Tree.withFlags (keep : Bool) (t : Tree) : Tree :=
-  { root := { t.root with rename := false }, children := computeFlags keep (!keep) t.children }
+  { root := { t.root with rename := false },
+    children := computeFlags keep (!keep && !(t.root.hasWith || anyWith t.children)) t.children }
 
 /-! ## shorthand properties / object patterns -/
 
